@@ -35,6 +35,7 @@ var match4Chains = [][]PlugConf{
 	{{"syn", []string{"nakreq", "3"}}},
 	{{"syn", []string{"setyi", "4"}}, {"mtu", []string{"1400"}}, {"staticroute", []string{"10.0.0.0/8,10.77.0.254"}}, {"autoconfigure", []string{"1"}}},
 	{{"ipv6only", []string{"300s"}}, {"sleep", []string{"200us"}}, {"nbp", []string{"tftp://10.77.0.9/boot.efi"}}},
+	{{"server_id", []string{"10.77.0.1"}}, {"syn", []string{"setyi", "9"}}, {"nbp", []string{"http://10.77.0.9/images/boot.efi"}}, {"router", []string{"10.77.0.1"}}},
 }
 
 func (match4Engine) Gen(rng *rand.Rand, tier string, i int) any {
